@@ -78,7 +78,25 @@ package modules
 //@ # initMap is the bookkeeping: a module's init function is invoked only while the module is not yet marked, the module is
 //@ # marked afterwards, marks are never removed, and on success the requested module and everything it was ordered
 //@ # after are marked. InitModuleServices hands the same bookkeeping map to every target.
-//@ assume func Manager.inverseDependenciesForModule
+//@ # the dependants a module's service waits for before it stops: EVERY registered module from which the module can be reached
+//@ # through dependency edges, at whatever distance (a dependant may be separated from it by modules without a service,
+//@ # which nobody waits for), and nothing else
+//@ pred strAt(s []string, v string) = exists i int :: 0 <= i && i < len(s) && s[i] == v
+//@ func Manager.inverseDependenciesForModule
+//@   property C18
+//@   ensures  complete: forall n string :: in(n, m.modules) && reach(m.modules, n, mod) ==> strAt(result, n)
+//@   ensures  sound: forall i int :: 0 <= i && i < len(result) ==> in(result[i], m.modules) && reach(m.modules, result[i], mod)
+//@   ghost var at total[string]int = havoc
+//@   loop 0 invariant same(m, old(m))
+//@   loop 0 invariant forall n string :: $visited[n] && reach(m.modules, n, mod) ==> 0 <= at[n] && at[n] < len(result) && result[at[n]] == n
+//@   loop 0 invariant forall i int :: 0 <= i && i < len(result) ==> in(result[i], m.modules) && reach(m.modules, result[i], mod)
+//@   loop 1 invariant same(m, old(m)) && (forall j int :: 0 <= j && j < $i ==> $coll[j] != mod)
+//@   loop 1 invariant forall x string :: strAt($coll, x) <==> reach(m.modules, n, x)
+//@   loop 1 invariant forall q string :: $visited0[q] && q != n && reach(m.modules, q, mod) ==> 0 <= at[q] && at[q] < len(result) && result[at[q]] == q
+//@   loop 1 invariant forall i int :: 0 <= i && i < len(result) ==> in(result[i], m.modules) && reach(m.modules, result[i], mod)
+//@   at before@append: at := store(at, n, len(result))
+//@   loop 0 end assert cur: reach(m.modules, n, mod) ==> 0 <= at[n] && at[n] < len(result) && result[at[n]] == n
+//@   loop 0 end assert others: forall q string :: $visited[q] && q != n && reach(m.modules, q, mod) ==> 0 <= at[q] && at[q] < len(result) && result[at[q]] == q
 //@   modifies nothing
 //@ assume func newModuleServiceWrapper
 //@   modifies nothing
